@@ -16,6 +16,18 @@ def ext_extra(tier, seed):
             c['fdst'] = -1
         c['first'] = r.choice(vals)
         out.append(c)
+    # every presence combination as a consistent chain in RFC 8200 order (so that the chain IS written and decoded again by every decoder)
+    order = [('hbh', 0), ('dst', 60), ('route', 43), ('frag', 44), ('auth', 51), ('fdst', 60)]
+    for mask in range(64):
+        present = [(k, n) for i, (k, n) in enumerate(order) if mask >> i & 1]
+        if any(k == 'fdst' for k, _ in present) and not any(k == 'route' for k, _ in present):
+            continue
+        for fin in (17, 6, 59):
+            c = {k: -1 for k, _ in order}
+            for j, (k, n) in enumerate(present):
+                c[k] = present[j + 1][1] if j + 1 < len(present) else fin
+            c['first'] = present[0][1] if present else fin
+            out.append(c)
     return out
 
 
@@ -263,6 +275,40 @@ def wire_extra(tier, seed):
         out.append({'kind': 'value', 'type': 'tcp', 'f': [r.randrange(65536), r.randrange(65536)] + by(8) + [5 + tn // 4, r.randrange(512), r.randrange(65536), r.randrange(65536), r.randrange(65536)] + by(tn), 'bytes': []})
         out.append({'kind': 'value', 'type': 'frag', 'f': [r.randrange(256), r.randrange(8192), r.randrange(2)] + by(4), 'bytes': []})
         out.append({'kind': 'value', 'type': 'rawext', 'f': [r.randrange(256)] + by(6 + 8 * r.choice([0, 1, 2, 7, 255])), 'bytes': []})
+    # ANY byte string through both decoders (from_slice, read): every value of the control bytes of each header kind (incl. reserved bits),
+    # over a body that is long enough for whatever length the control bytes announce
+    def anyc(ty, b):
+        out.append({'kind': 'any', 'type': ty, 'f': [], 'bytes': b})
+    for tci in (0x00, 0x20, 0x04, 0x08, 0x0c, 0x2c, 0x10, 0x40, 0x80, 0x23):
+        for b1 in range(256):
+            anyc('macsec', [tci, b1] + by(16))
+    for b0 in list(range(0x40, 0x50)) + [0x35, 0x55, 0x65, 0x05]:
+        for b6 in (0x00, 0x80, 0x40, 0x20, 0xff, 0x1f):
+            anyc('ipv4', [b0, r.randrange(256)] + by(4) + [b6] + by(53))
+    for b12 in range(256):
+        anyc('tcp', by(12) + [b12] + by(47))
+    step = 1 if tier != 'quick' else 5
+    for b1 in sorted(set(list(range(0, 256, step)) + [0, 1, 2, 254, 255])):
+        anyc('auth', [r.randrange(256), b1, r.choice([0, 0xff]), r.choice([0, 1])] + by((b1 + 2) * 4 - 4 if b1 else 12))
+        anyc('rawext', [r.randrange(256), b1] + by((b1 + 1) * 8 - 2))
+    for b1 in (0, 1, 0xff):
+        for b3 in range(0, 256, 1 if tier != 'quick' else 3):
+            anyc('frag', [r.randrange(256), b1, r.randrange(256), b3] + by(4))
+    for pt in range(0, 10):
+        for hw in (1, 770, 778, 803, 824, 0, 2, 65535):
+            for proto in (0, 1, 9, 10, 12, 14, 15, 16, 17, 18, 21, 28, 29, 245, 250, 251, 0x0800, 0xffff):
+                anyc('sll', [pt >> 8, pt & 255, hw >> 8, hw & 255, 0, r.randrange(9)] + by(8) + [proto >> 8, proto & 255])
+    for hl in (0, 1, 6, 8, 255):
+        for pl in (0, 4, 16, 255):
+            anyc('arp', by(4) + [hl, pl] + by(2) + by(2 * hl + 2 * pl))
+    for ty, n in (('eth', 14), ('vlan', 4), ('udp', 8), ('ipv6', 40), ('icmp6', 8), ('icmp4', 8), ('icmp4', 20)):
+        for _ in range(20):
+            b = by(n)
+            if ty == 'ipv6':
+                b[0] = r.choice([0x60, 0x6f, 0x40, 0x70])
+            if ty == 'icmp4':
+                b[0], b[1] = r.choice([0, 3, 5, 8, 11, 12, 13, 14, 42]), r.choice([0, 0, 1, 4])
+            anyc(ty, b)
     return out
 
 
